@@ -38,6 +38,22 @@ def _strategy():
                          [{"op": "wait", "d": w2}] + sends[2:] + more,
                          st.sampled_from([0.0, 0.001]), st.sampled_from([0.2495, 0.2505, 0.251, 0.252, 0.254]),
                          st.lists(send, min_size=2, max_size=4), st.sampled_from([0.001, 0.002, 0.004]), st.lists(st.one_of(send, wait), max_size=3))
+    # whole-case shape: an arbitrary-address-capable CA loses its address just before a tick of its claim timer while a frame
+    # write takes 5 ms in every context - the re-claim for the next address is still being written (in the receive context)
+    # when the background thread runs the timer callback; then every entry point is tried
+    shape_tick = st.builds(
+        lambda dll, addr, d, w1, x, sends, w2, more: {
+            "dll": dll, "aac": True, "bypass": False, "addr": addr, "dm1_tail": False, "tx_pre": 0.0, "tx_time": 0.005, "lat": [0.0005],
+            "ops": [{"op": "start", "delay": d}, {"op": "wait", "d": w1}, {"op": "contend", "lower": True, "at_tick": x}] + sends +
+                   [{"op": "wait", "d": w2}] + more},
+        st.sampled_from(["j1939-21", "j1939-22"]), st.sampled_from([0x20, 0x80, 0xC8, 0xF0]), st.sampled_from([0.0, 0.001, 0.1]),
+        st.sampled_from([0.3, 0.6, 1.0]), st.sampled_from([0.0005, 0.002, 0.004]), st.lists(send, min_size=1, max_size=4),
+        st.sampled_from([0.001, 0.3, 0.6]), st.lists(st.one_of(send, contend, wait), max_size=4))
+    general = _general(rnd, pattern, pattern2)
+    return st.one_of(general, general, general, general, general, shape_tick)
+
+
+def _general(rnd, pattern, pattern2):
     return st.fixed_dictionaries({
         "dll": st.sampled_from(["j1939-21", "j1939-21", "j1939-22"]),
         "aac": st.booleans(), "bypass": st.sampled_from([False, False, True]),
@@ -45,6 +61,8 @@ def _strategy():
         "ops": st.one_of(rnd, rnd, pattern, pattern, pattern2),
         "dm1_tail": st.booleans(),
         "tx_pre": st.sampled_from([0.0, 0.0, 0.002, 0.005]),      # a frame write of the job thread waits that long before the bus
+        # a frame write keeps its caller (any context: application, receive path, background thread) that long after the frame is out
+        "tx_time": st.sampled_from([0.0, 0.0, 0.0005, 0.005]),
         "lat": st.lists(st.sampled_from(simbus.LATENCY_GRID[1:]), min_size=1, max_size=2),
     })
 
@@ -95,7 +113,8 @@ class C13:
         try:
             j = W.load()
             State = j.ControllerApplication.State
-            s = w.stack("S", dll=p["dll"], max_cmdt=255, tx_pre=p.get("tx_pre", 0.0))
+            s = w.stack("S", dll=p["dll"], max_cmdt=255, tx_pre=p.get("tx_pre", 0.0), tx_time=p.get("tx_time", 0.0),
+                        tx_all_contexts=bool(p.get("tx_time")))
             name_val = NAME | (int(p["aac"]) << 63)
             ca = s.add_ca("ca", name_val, p["addr"], bypass=p["bypass"])
             peer = RefPeer(w.bus, "P", SA_P, fd=fd, grants=[255], reply_lat=[0.001])
@@ -139,6 +158,13 @@ class C13:
                     cname &= (1 << 64) - 1
                     if op["lower"] and cname > name_val:
                         continue
+                    if op.get("at_tick") is not None:
+                        # (schedule alignment only: the contending claim arrives that long before the background thread's next
+                        # timed wake-up)
+                        wk = [t.wake_at for t in s.threads if not t.done and getattr(t, "wake_at", None) is not None]
+                        if wk and min(wk) - max(p["lat"]) - op["at_tick"] > w.sim.now:
+                            w.run_until(min(wk) - max(p["lat"]) - op["at_tick"])
+                            labels.append("loss-at-timer-tick")
                     raw.send(R.mk_id(6, 0, 0xEE, 255, cur), R.name_bytes(cname))
                     w.run_for(max(p["lat"]) + 0.001)          # until the contending claim has been delivered
                     if op["lower"] and (was_normal or was_waiting):
@@ -180,6 +206,10 @@ class C13:
                     except Exception as e:   # noqa - judged below
                         exc = e
                     new = [e for e in w.bus.log[k0:] if e.node == "S"]
+                    if p.get("tx_time"):
+                        # the call took time: the background thread may have written an address claim of its own meanwhile
+                        new = [e for e in new if not (e.ext and ((e.can_id >> 16) & 0xFF) == 0xEE and ((e.can_id >> 8) & 0xFF) == 255
+                                                      and list(e.data) == R.name_bytes(name_val))]
                     is_claim_req = entry == "request_claim" or (entry == "request" and op["pgn"] == 0xEE00)
                     if not operational:
                         if lost[0]:
